@@ -1,7 +1,7 @@
 (* C01 — Conditional inclusion matches what a real C preprocessor would do.
    Statements only. *)
 From Coq Require Import List Bool Arith ZArith String.
-From CBI Require Import Lib.Res Model.C01 Spec.C01 Spec.C01b Model.C01i Proofs.C01 Proofs.C01b Proofs.C01i.
+From CBI Require Import Lib.Res Model.C01 Spec.C01 Spec.C01b Model.C01i Proofs.C01 Proofs.C01b Proofs.C01i Proofs.C01t Gen.C01_tables.
 Import ListNotations.
 Local Open Scope string_scope.
 
@@ -38,6 +38,18 @@ Theorem C01_attribution_balanced :
     run_M ST ACT COND mark exec ev ls p = run_S ST ACT COND mark exec ev ls p.
 Proof. exact attribution_balanced. Qed.
 Print Assumptions C01_attribution_balanced.
+
+(* Tie to the CURRENT source: the model's is_start/is_cont/is_end are the values of
+   Node.is_start_node / is_cont_node / is_end_node that the translator reads from
+   codebasin/preprocessor.py on every run (Gen/C01_tables.v), and every node class
+   other than the four conditional ones is a plain node. *)
+Theorem C01_kinds_match_source :
+  (forall (ACT COND : Type) (k : kind ACT COND),
+     klookup (kind_class k) node_kinds = Some (is_start ACT COND k, is_cont ACT COND k, is_end ACT COND k)) /\
+  forallb (fun kv => existsb (String.eqb (fst kv)) conditional_classes ||
+                     match snd kv with (false, false, false) => true | _ => false end) node_kinds = true.
+Proof. split; [exact kinds_match_source | exact other_classes_plain]. Qed.
+Print Assumptions C01_kinds_match_source.
 
 (* the tree built from a structured program is the one its nesting denotes *)
 Theorem C01_tree_shape :
